@@ -19,6 +19,14 @@ pub enum Layer {
     Array(usize),
     Inline(usize, usize),
     Mixed(usize),
+    /// one array, `n` flat fillers of a kind before the inner value: breadth, not depth
+    /// (0 elements, 1 comment lines, 2 blank lines, 3 elements with comments, 4 small arrays,
+    /// 5 small inline tables, 6 CRLF comment lines)
+    WideArray(usize, usize),
+    /// one inline table with `n` sibling dotted keys of `m` extra segments each before the inner value
+    WideInline(usize, usize),
+    /// `n` flat statements of a kind in front of everything else (see `preamble`)
+    Pre(usize, usize),
 }
 
 #[derive(Clone, Debug)]
@@ -26,6 +34,26 @@ pub struct Recipe {
     pub header: Option<(bool, usize)>,
     pub key: usize,
     pub layers: Vec<Layer>,
+}
+
+/// `n` flat statements of a kind in front of the recipe's own statement (0 key/values, 1 comment
+/// lines, 2 dotted keys under one prefix, 3 headers, 4 array-of-tables elements, 5 blank lines)
+fn preamble(kind: usize, n: usize) -> String {
+    let mut s = String::new();
+    for i in 0..n {
+        match kind {
+            0 => s.push_str(&format!("k{i} = 1\n")),
+            1 => s.push_str("# c\n"),
+            2 => s.push_str(&format!("p.q.k{i} = 1\n")),
+            3 => s.push_str(&format!("[t{i}]\n")),
+            4 => s.push_str("[[t]]\nx = 1\n"),
+            _ => s.push('\n'),
+        }
+    }
+    if kind == 3 || kind == 4 {
+        s.push_str("[last]\n");
+    }
+    s
 }
 
 impl Recipe {
@@ -40,6 +68,9 @@ impl Recipe {
                 Layer::Array(n) => s.push_str(&format!(";A{n}")),
                 Layer::Inline(n, m) => s.push_str(&format!(";I{n}x{m}")),
                 Layer::Mixed(n) => s.push_str(&format!(";M{n}")),
+                Layer::WideArray(k, n) => s.push_str(&format!(";W{k}x{n}")),
+                Layer::WideInline(n, m) => s.push_str(&format!(";J{n}x{m}")),
+                Layer::Pre(k, n) => s.push_str(&format!(";P{k}x{n}")),
             }
         }
         s
@@ -58,6 +89,18 @@ impl Recipe {
                     let (a, b) = rest.split_once('x')?;
                     r.layers.push(Layer::Inline(a.parse().ok()?, b.parse().ok()?));
                 }
+                "W" => {
+                    let (a, b) = rest.split_once('x')?;
+                    r.layers.push(Layer::WideArray(a.parse().ok()?, b.parse().ok()?));
+                }
+                "J" => {
+                    let (a, b) = rest.split_once('x')?;
+                    r.layers.push(Layer::WideInline(a.parse().ok()?, b.parse().ok()?));
+                }
+                "P" => {
+                    let (a, b) = rest.split_once('x')?;
+                    r.layers.push(Layer::Pre(a.parse().ok()?, b.parse().ok()?));
+                }
                 _ => return None,
             }
         }
@@ -74,12 +117,20 @@ impl Recipe {
                 Layer::Array(k) => 2 * k,
                 Layer::Inline(k, m) => k * (2 * m + 3),
                 Layer::Mixed(k) => 3 * k + 2,
+                Layer::WideArray(_, n) => 10 * n + 4,
+                Layer::WideInline(n, m) => n * (2 * m + 10) + 8,
+                Layer::Pre(_, n) => 16 * n + 8,
             };
         }
         n
     }
     pub fn text(&self) -> String {
         let mut s = String::new();
+        for l in &self.layers {
+            if let Layer::Pre(kind, n) = l {
+                s.push_str(&preamble(*kind, *n));
+            }
+        }
         if let Some((aot, k)) = self.header {
             s.push_str(if aot { "[[" } else { "[" });
             s.push_str(&vec!["a"; k].join("."));
@@ -116,12 +167,48 @@ impl Recipe {
                     }
                     close.insert_str(0, &c);
                 }
+                Layer::WideArray(kind, n) => {
+                    s.push_str("[\n");
+                    for _ in 0..*n {
+                        s.push_str(match kind {
+                            0 => "1, ",
+                            1 => "# c\n",
+                            2 => "\n",
+                            3 => "1, # c\n",
+                            4 => "[1], ",
+                            5 => "{a=1}, ",
+                            _ => "# c\r\n",
+                        });
+                    }
+                    close.insert_str(0, "\n]");
+                }
+                Layer::Pre(..) => {}
+                Layer::WideInline(n, m) => {
+                    s.push('{');
+                    for i in 0..*n {
+                        s.push_str(&format!("k{i}{} = 0, ", ".a".repeat(*m)));
+                    }
+                    s.push_str("z = ");
+                    close.insert(0, '}');
+                }
             }
         }
         s.push('1');
         s.push_str(&close);
         s.push('\n');
         s
+    }
+    /// only breadth: a short header and key, nothing but wide layers with short sibling keys
+    pub fn flat_only(&self) -> bool {
+        self.header.map_or(true, |(_, n)| n <= 10)
+            && self.key <= 10
+            && !self.layers.is_empty()
+            && self.layers.len() <= 3
+            && self.layers.iter().all(|l| match l {
+                Layer::WideArray(..) | Layer::Pre(..) => true,
+                Layer::WideInline(_, m) => *m <= 20,
+                _ => false,
+            })
     }
     /// the recipe is one construct only, nested to `depth`
     pub fn single_construct(&self) -> Option<(&'static str, usize)> {
@@ -308,6 +395,34 @@ fn pair_recipes() -> Vec<Recipe> {
     v
 }
 
+/// breadth instead of depth: long flat runs inside one array / one inline table, alone, nested in
+/// each other, and below some ordinary nesting
+fn wide_recipes() -> Vec<Recipe> {
+    let mut v = Vec::new();
+    for &n in &[100usize, 1000, 1500, 4000] {
+        for kind in 0..7 {
+            v.push(Recipe { header: None, key: 1, layers: vec![Layer::WideArray(kind, n)] });
+        }
+        v.push(Recipe { header: Some((true, 2)), key: 2, layers: vec![Layer::WideArray(1, n), Layer::WideArray(3, 50)] });
+        v.push(Recipe { header: None, key: 1, layers: vec![Layer::Array(20), Layer::WideArray(1, n)] });
+        v.push(Recipe { header: None, key: 1, layers: vec![Layer::Inline(10, 2), Layer::WideArray(6, n)] });
+    }
+    for &(n, m) in &[(10usize, 1usize), (100, 1), (1000, 1), (5, 20), (30, 3), (200, 5), (79, 1), (80, 1), (81, 1), (40, 2), (2, 39), (2, 40)] {
+        v.push(Recipe { header: None, key: 1, layers: vec![Layer::WideInline(n, m)] });
+        v.push(Recipe { header: Some((false, 3)), key: 1, layers: vec![Layer::WideInline(n, m), Layer::WideArray(0, 10)] });
+        v.push(Recipe { header: None, key: 1, layers: vec![Layer::WideArray(5, 10), Layer::WideInline(n, m)] });
+        v.push(Recipe { header: None, key: 1, layers: vec![Layer::Array(30), Layer::WideInline(n, m), Layer::Array(20)] });
+    }
+    for kind in 0..6 {
+        for &n in &[200usize, 2000] {
+            v.push(Recipe { header: None, key: 1, layers: vec![Layer::Pre(kind, n)] });
+            v.push(Recipe { header: Some((true, 3)), key: 2, layers: vec![Layer::Pre(kind, n), Layer::WideArray(1, 300)] });
+        }
+    }
+    v.retain(|r| r.text_len() <= MAX_TEXT);
+    v
+}
+
 fn random_recipe(rng: &mut Rng) -> Recipe {
     let pick = |rng: &mut Rng| -> usize {
         match rng.below(6) {
@@ -329,12 +444,18 @@ fn random_recipe(rng: &mut Rng) -> Recipe {
         let nl = rng.below(4);
         let mut layers = Vec::new();
         for _ in 0..nl {
-            layers.push(match rng.below(4) {
+            layers.push(match rng.below(7) {
                 0 => Layer::Array(pick(rng)),
                 1 => Layer::Inline(pick(rng), 1),
                 2 => Layer::Inline(pick(rng), pick(rng)),
-                _ => Layer::Mixed(pick(rng)),
+                3 => Layer::Mixed(pick(rng)),
+                4 => Layer::WideArray(rng.below(7), *rng.pick(&[3usize, 50, 400, 1200, 3000])),
+                5 => Layer::WideInline(*rng.pick(&[2usize, 10, 79, 80, 300, 1000]), 1 + rng.below(3)),
+                _ => Layer::WideInline(1 + rng.below(40), pick(rng).min(60)),
             });
+        }
+        if rng.chance(1, 6) {
+            layers.push(Layer::Pre(rng.below(6), *rng.pick(&[5usize, 100, 1500])));
         }
         let r = Recipe { header, key, layers };
         if r.text_len() <= MAX_TEXT {
@@ -422,6 +543,9 @@ impl C05 {
                             ctx.violation(&format!("below-limit-rejected:{what}"), format!("recipe {enc}: a single {what} nested {n} deep is refused ({msg})"));
                         }
                     }
+                    if r.flat_only() {
+                        ctx.violation("below-limit-rejected:breadth", format!("recipe {enc}: a document that is wide but at most a few dozen levels deep is refused ({msg})"));
+                    }
                     if field("TOML_VALUE ").as_deref() == Some("true") || field("EDIT_DE ").as_deref() == Some("true") {
                         ctx.violation("front-ends-disagree", format!("recipe {enc}: DocumentMut refuses, a serde front end accepts"));
                     }
@@ -444,6 +568,9 @@ impl C05 {
         }
         if let Some((what, n)) = single {
             ctx.count(&format!("single-construct/{what}/{}", if n <= 79 { "below-limit" } else { "at-or-beyond-limit" }));
+        }
+        if r.flat_only() {
+            ctx.count("breadth-only-recipes");
         }
     }
 }
@@ -487,12 +614,13 @@ impl Check for C05 {
         "C05"
     }
     fn workloads(&mut self, tier: Tier, _seed: u64) -> Vec<(String, u64)> {
-        vec![("single".into(), single_recipes().len() as u64), ("pairs".into(), pair_recipes().len() as u64), ("random".into(), if tier == Tier::Quick { 300 } else { 20_000 })]
+        vec![("single".into(), single_recipes().len() as u64), ("pairs".into(), pair_recipes().len() as u64), ("wide".into(), wide_recipes().len() as u64), ("random".into(), if tier == Tier::Quick { 300 } else { 20_000 })]
     }
     fn run(&mut self, ctx: &mut Ctx, workload: &str, index: u64, rng: &mut Rng) {
         let r = match workload {
             "single" => single_recipes()[index as usize].clone(),
             "pairs" => pair_recipes()[index as usize].clone(),
+            "wide" => wide_recipes()[index as usize].clone(),
             "random" => random_recipe(rng),
             other => {
                 ctx.inconclusive(format!("unknown workload {other}"));
